@@ -24,13 +24,16 @@ brows = []
 for d in sorted(glob.glob('/verif/seeded/benign/*/')):
     m = json.load(open(d + 'meta.json'))
     st = m.get('suite_with_change', {})
-    brows.append("| %s | %s | %s passed / %s failed (literal-diff assertions) | %s |" % (m['id'], m['keeps_property'], st.get('passed'), st.get('failed'),
-                 "silent" if not m['false_alarms'] else "ALARM " + ",".join(m['false_alarms'])))
+    cross = m.get('cross', {})
+    cal = ["%s (%s)" % (p, "; ".join(x.replace("signature: ", "") for x in v.get('sig', []))) for p, v in sorted(cross.items()) if v.get('exit')]
+    brows.append("| %s | %s | %s passed / %s failed (literal-diff assertions) | %s | %s |" % (m['id'], m['keeps_property'], st.get('passed'), st.get('failed'),
+                 "silent" if not m['false_alarms'] else "ALARM " + ",".join(m['false_alarms']),
+                 ("%d checks: " % len(cross) + ("all silent" if not cal else "alarm under " + ", ".join(cal) + " - judged in DESIGN.md 0.8")) if cross else "-"))
 out += """
 ## Property-preserving changes (`benign/`): the checks must stay silent
 
-| id | keeps | existing suite with the change | quick check of that property |
-|---|---|---|---|
+| id | keeps | existing suite with the change | quick check of that property | all checks of the neighbourhood (tools/benign_cross.py) |
+|---|---|---|---|---|
 """ + "\n".join(brows) + "\n"
 open('/verif/seeded/README.md', 'w').write(out)
 print(len(rows), "rows;", sum(1 for r in rows if "MISSED" in r), "missed")
